@@ -811,9 +811,11 @@ package gts
 //@   prop C11
 //@   ensures fresh(ret) && len(ret) == len(props)
 //@   ensures forall i in 0..len(props): fresh(ret[i]) && len(ret[i]) == len(props[i])
+//@   ensures content: forall i in 0..len(props): forall j in 0..len(props[i]): ret[i][j] == old(props[i][j])
 //@   assigns nothing
 //@   loop 1: invariant fresh(ret) && len(ret) == len(props)
 //@   loop 1: invariant forall k in 0..i: fresh(ret[k]) && len(ret[k]) == len(props[k])
+//@   loop 1: invariant forall k in 0..i: forall j in 0..len(props[k]): ret[k][j] == old(props[k][j])
 //@   loop 1: decreases len(props) - i
 
 //@ func Reverse(seq Sequence) (out Sequence)
@@ -1704,3 +1706,11 @@ func lemmaSliceConcat(seq Sequence, c int) Sequence {
 //@   ensures !isnil(out) && len(bytesOf(out)) == s[0] - s[1]
 //@   ensures revcomp: forall k in 0..s[0]-s[1]: complOK(int(old(bytesOf(seq)[s[0]-1-k])), int(bytesOf(out)[k]))
 //@   assigns nothing
+
+//@ func (props Props) Keys() (keys []string)
+//@   prop C19 C11
+//@   requires forall k in 0..len(props): len(props[k]) >= 1
+//@   ensures fresh(keys) && len(keys) == len(props) && (forall k in 0..len(props): keys[k] == props[k][0])
+//@   assigns nothing
+//@   loop 1: invariant fresh(keys) && len(keys) == len(props) && (forall k in 0..i: keys[k] == props[k][0])
+//@   loop 1: decreases len(props) - i
